@@ -82,6 +82,9 @@ PROPS["C09"] = {
         {"pkg": ".", "dir": "s3db", "entry": "VerifH_C09_vacuum",
          "quick": {"params": "steps=3", "workers": 16, "timeout": 1200},
          "thorough": {"params": "steps=4", "workers": 16, "timeout": 6000}},
+        {"pkg": ".", "dir": "s3db", "entry": "VerifH_C09_vacuum", "tag": "-cache-two-rounds",
+         "quick": {"params": "steps=2,rounds=2,cache=8", "workers": 16, "timeout": 1800},
+         "thorough": {"params": "steps=3,rounds=2,cache=8", "workers": 16, "timeout": 7200}},
         {"pkg": "kv", "dir": "kv", "entry": "VerifH_C09_kv_history",
          "quick": {"params": "steps=5", "workers": 16, "timeout": 1200},
          "thorough": {"params": "steps=6", "workers": 16, "timeout": 6000}},
